@@ -152,7 +152,9 @@ def boundary_sweep(rep):
                 for via, vs in (("add", BOUNDARY_V), ("dict", BOUNDARY_V),
                                 ("add:uint64", BOUNDARY_V), ("add:int64", BOUNDARY_V),
                                 ("add:uint32", BOUNDARY_V), ("dict:uint64", BOUNDARY_V),
-                                ("list", [0, 1, 3]), ("tuple", [1, 3]), ("iter", [1, 3])):
+                                ("list", [0, 1, 3] + ([255, 256, 1024, 4095, 4096, 4097, 8192]
+                                                      if c0 == 0 and len(key) <= 1 else [])),
+                                ("tuple", [1, 3]), ("iter", [1, 3])):
                     for v in vs:
                         if ":" in via and spell(v, via.split(":")[1]) is None:
                             continue
@@ -168,21 +170,50 @@ def boundary_sweep(rep):
             rep.nontrivial(("boundary", tuple(args), key))
     # n-gram documents: empty document, document shorter than / equal to / longer than n
     for doc, g in ((b"", 1), (b"", 3), (b"ab", 3), (b"abc", 3), (b"aaaa", 1), (b"aaaaa", 3),
-                   (b"\x00" * 6, 2), (bytes(range(64)) * 2, 64)):
-        sk = SK.make("linear", 2, 2)
-        sk.add_ngram(doc, g)
-        grams = [doc] if len(doc) <= g else [doc[i:i + g] for i in range(len(doc) - g + 1)]
-        if len(doc) == 0:
-            grams = []
+                   (b"\x00" * 6, 2), (bytes(range(64)) * 2, 64),
+                   # a byte re-appearing exactly n positions later with different bytes between
+                   (b"abab", 2), (b"abca", 3), (b"xyxyxy", 2), (b"aabaab", 3), (b"abcabcab", 3),
+                   (b"aab", 1), (b"abba", 2), (b"\x00a\x00a\x00", 2)):
         n += 1
         rep.evals()
-        for k in set(grams):
-            if int(sk.query(k)) < grams.count(k):
-                rep.violation({"part": "boundary_ngram", "doc": doc, "n": g},
-                              f"add_ngram({doc[:10]!r}.., {g}): estimate of {k[:8]!r} is "
-                              f"{int(sk.query(k))} < true {grams.count(k)}")
+        bad, obs = ngram_case(doc, g)
+        if bad:
+            rep.violation({"part": "boundary_ngram", "doc": doc, "n": g},
+                          f"add_ngram({doc[:10]!r}.., {g}): {obs['problems'][0]}")
     rep.part("boundary_sweep", cases=n)
     return n
+
+
+_NG_PROBE = []
+
+
+def ngram_case(doc, g):
+    """add_ngram(doc, g) on a fresh 64x4 linear sketch: every n-gram's estimate lies between its
+    true count and the collision bound (probed cell ownership), nothing else was added."""
+    from .. import sk as SK
+    from ..models import cm as M2
+
+    if not _NG_PROBE:
+        _NG_PROBE.append(M2.Probe(lambda: SK.make("linear", 64, 4)))
+    probe = _NG_PROBE[0]
+    sk = SK.make("linear", 64, 4)
+    sk.add_ngram(doc, g)
+    grams = [doc] if len(doc) <= g else [doc[i:i + g] for i in range(len(doc) - g + 1)]
+    true = {}
+    for w in grams:
+        true[w] = true.get(w, 0) + 1
+    cols = {k: probe.cols(k) for k in true}
+    probs = []
+    for k, f in true.items():
+        q = int(sk.query(k))
+        hi = min(sum(f2 for k2, f2 in true.items() if cols[k2][r] == cols[k][r]) for r in range(4))
+        if q < f:
+            probs.append(f"estimate of {k[:8]!r} is {q} < true count {f}")
+        elif q > hi:
+            probs.append(f"estimate of {k[:8]!r} is {q} > collision bound {hi} (true {f})")
+    if int(sk.n_added()) != len(grams):
+        probs.append(f"n_added() = {int(sk.n_added())} after {len(grams)} n-grams")
+    return bool(probs), {"problems": probs[:3]}
 
 
 def replay_boundary(case):
@@ -213,16 +244,7 @@ def replay(case):
     if case.get("part") == "boundary":
         return replay_boundary(case)
     if case.get("part") == "boundary_ngram":
-        from .. import sk as SK
-
-        sk = SK.make("linear", 2, 2)
-        doc, g = case["doc"], case["n"]
-        sk.add_ngram(doc, g)
-        grams = [doc] if len(doc) <= g else [doc[i:i + g] for i in range(len(doc) - g + 1)]
-        if not doc:
-            grams = []
-        got = {k: int(sk.query(k)) for k in set(grams)}
-        return any(got[k] < grams.count(k) for k in got), {"estimates": sorted(got.items())}
+        return ngram_case(case["doc"], case["n"])
     if case["cfg"].get("shared"):
         from ..common import quiet_shm
 
